@@ -270,9 +270,9 @@ Section Machine.
   Definition visl (tree : list (edge E)) : list nat :=
     if cyc then map edstE tree else root :: map edstE tree.
   Definition Seen (tree : list (edge E)) (v : nat) : Prop := v = root \/ In v (map edstE tree).
-  Definition Closed (tree : list (edge E)) (u : nat) : Prop :=
+  Definition WClosed (tree : list (edge E)) (u : nat) : Prop :=
     forall x, In x (adj_of h d u) -> accept (mk_e u x) = true -> In (fst x) (visl tree).
-  Definition ClosedTo (tree : list (edge E)) (u n : nat) : Prop :=
+  Definition WClosedTo (tree : list (edge E)) (u n : nat) : Prop :=
     forall i x, i < n -> nth_error (adj_of h d u) i = Some x -> accept (mk_e u x) = true ->
                 In (fst x) (visl tree).
 
@@ -283,21 +283,21 @@ Section Machine.
   Qed.
 
   Lemma visl_seen tree v : In v (visl tree) -> Seen tree v.
-  Proof. unfold visl, Seen. destruct cyc; cbn [In]; intuition. Qed.
+  Proof. clear Htgt. unfold visl, Seen. destruct cyc; cbn [In]; intuition. Qed.
 
   Lemma seen_snoc tree e w : Seen (tree ++ [e]) w <-> Seen tree w \/ w = edst e.
   Proof.
     unfold Seen. rewrite map_app, in_app_iff. cbn [map In]. intuition congruence.
   Qed.
 
-  Lemma closed_mono tree e u : Closed tree u -> Closed (tree ++ [e]) u.
+  Lemma closed_mono tree e u : WClosed tree u -> WClosed (tree ++ [e]) u.
   Proof. intros H x Hx Ha. apply visl_snoc. left. now apply H. Qed.
 
-  Lemma closedto_mono tree e u n : ClosedTo tree u n -> ClosedTo (tree ++ [e]) u n.
+  Lemma closedto_mono tree e u n : WClosedTo tree u n -> WClosedTo (tree ++ [e]) u n.
   Proof. intros H i x Hi Hx Ha. apply visl_snoc. left. eapply H; eauto. Qed.
 
-  Lemma closedto_all tree u n : ClosedTo tree u n -> nth_error (adj_of h d u) n = None ->
-    Closed tree u.
+  Lemma closedto_all tree u n : WClosedTo tree u n -> nth_error (adj_of h d u) n = None ->
+    WClosed tree u.
   Proof.
     intros H Hn x Hx Ha. apply In_nth_error in Hx. destruct Hx as [i Hi].
     eapply H; eauto. apply nth_error_None in Hn.
@@ -356,7 +356,7 @@ Section Machine.
     gp_core : CoreVT vis tree;
     gp_seen : forall v, Seen tree v <-> In v R \/ In v P;
     gp_nodup : NoDup (R ++ P);
-    gp_closed : forall r, In r R -> Closed tree r
+    gp_closed : forall r, In r R -> WClosed tree r
   }.
 
   Lemma seen_valid vis tree v : CoreVT vis tree -> Seen tree v -> v < size h.
@@ -406,10 +406,19 @@ Section Machine.
     - eapply unvisited; eauto. unfold visl. rewrite Hcyc. left. auto.
   Qed.
 
-  Lemma GP_skip R P vis tree u n x : GP R P vis tree -> ClosedTo tree u n ->
+  Lemma fresh_not_seen vis tree u x : CoreVT vis tree -> In x (adj_of h d u) ->
+    in_vis keqb h vis (fst x) = false -> is_target keqb h tgt (fst x) = false ->
+    ~ Seen tree (fst x).
+  Proof.
+    intros Hc Hx Hv Ht [H|H].
+    - eapply unvisited_notroot; eauto.
+    - eapply unvisited; eauto. unfold visl. destruct cyc; [exact H|right; exact H].
+  Qed.
+
+  Lemma GP_skip R P vis tree u n x : GP R P vis tree -> WClosedTo tree u n ->
     nth_error (adj_of h d u) n = Some x ->
     accept (mk_e u x) && negb (in_vis keqb h vis (fst x)) = false ->
-    ClosedTo tree u (S n).
+    WClosedTo tree u (S n).
   Proof.
     intros HG Hcl Hn Hf i y Hi Hy Ha.
     destruct (Nat.eq_dec i n) as [->|Hne]; [|eapply Hcl; eauto; lia].
@@ -460,7 +469,7 @@ Section Machine.
     - intros r Hr. apply closed_mono. now apply Hcl.
   Qed.
 
-  Lemma GP_end R u P vis tree : GP R (u :: P) vis tree -> Closed tree u -> GP (R ++ [u]) P vis tree.
+  Lemma GP_end R u P vis tree : GP R (u :: P) vis tree -> WClosed tree u -> GP (R ++ [u]) P vis tree.
   Proof.
     intros [Hc Hs Hn Hcl] Hu. split; [exact Hc| | |].
     - intros v. rewrite Hs, in_app_iff. cbn [In]. intuition.
@@ -566,7 +575,7 @@ Section Machine.
   Definition GL (R : list nat) (st : sst) (q : Q) : Prop :=
     s_heap st = h /\ GP R (cont q) (s_vis st) (s_tree st).
   Definition GS (R : list nat) (st : sst) (q : Q) (u pos : nat) : Prop :=
-    s_heap st = h /\ GP R (u :: cont q) (s_vis st) (s_tree st) /\ ClosedTo (s_tree st) u pos.
+    s_heap st = h /\ GP R (u :: cont q) (s_vis st) (s_tree st) /\ WClosedTo (s_tree st) u pos.
   Definition GE (R : list nat) (st : sst) : Prop :=
     s_heap st = h /\ GP R [] (s_vis st) (s_tree st).
 
@@ -877,7 +886,7 @@ Section Main.
     - destruct (backtrack keqb (s_heap st1) (s_tree st1)); discriminate.
     - inversion H; subst st1. destruct Hi as [R [Hh HG]].
       split; [exact Hh|]. split; [exact (c_tree (gp_core HG))|].
-      split; [exact (c_root (gp_core HG))|]. eapply exhausted_reach; [|exact HG]; discriminate.
+      split; [exact (c_root (gp_core HG))|]. eapply exhausted_reach; exact HG.
     - discriminate.
   Qed.
 
@@ -908,7 +917,7 @@ Section Main.
     destruct (RUN k (Some t) false fuel) as [st1 r] eqn:Hrun.
     pose proof (run_inv _ _ _ Hkd Hrun) as Hi. destruct r.
     - destruct (backtrack keqb (s_heap st1) (s_tree st1)); discriminate.
-    - destruct Hi as [R [Hh HG]]. eapply (exhausted_notarget Hk); [|exact HG|reflexivity|exact Hrt]; discriminate.
+    - destruct Hi as [R [Hh HG]]. eapply (exhausted_notarget Hk); [exact HG|reflexivity|exact Hrt].
     - discriminate.
   Qed.
 
@@ -999,8 +1008,7 @@ Section Main.
     destruct (RUN k t true fuel) as [st1 r] eqn:Hrun.
     pose proof (run_inv _ _ _ Hkd Hrun) as Hi. destruct r.
     - destruct (backtrack keqb (s_heap st1) (s_tree st1)); discriminate.
-    - destruct Hi as [R [Hh HG]]. eapply exhausted_nocycle; [|exact HG|reflexivity].
-      intros _. reflexivity.
+    - destruct Hi as [R [Hh HG]]. eapply exhausted_nocycle; [exact HG|reflexivity].
     - discriminate.
   Qed.
 End Main.
@@ -1112,11 +1120,10 @@ Section Foreach.
       eapply (foreach_loop HQ) in Hrun.
       + destruct Hrun as [R [[Hh HG] HT]]. exists R. split; [|split].
         * pose proof (gp_nodup HG) as Hn. now rewrite app_nil_r in Hn.
-        * assert (Htg : false = true -> None = keyof h root) by discriminate.
-          intros v. split.
-          -- intros Hv. apply (proj2 (exhausted_reach Htg HG v)).
+        * intros v. split.
+          -- intros Hv. apply (proj2 (exhausted_reach HG v)).
              apply (proj2 (gp_seen HG v)). left. exact Hv.
-          -- intros Hr. apply (proj1 (exhausted_reach Htg HG v)) in Hr.
+          -- intros Hr. apply (proj1 (exhausted_reach HG v)) in Hr.
              apply (proj1 (gp_seen HG v)) in Hr. destruct Hr as [Hr|[]]. exact Hr.
         * unfold TE in HT. rewrite HT. apply Permutation_refl.
       + apply (init_GL Hk acceptT Hinj d Hroot (cb0 E) None false).
